@@ -93,6 +93,8 @@ def run_case(c):
         # real-valued tensors (float dtype) against possibly complex Hamiltonians
         for _i in range(len(psi.A)):
             psi.A[_i] = psi.A[_i].real.copy()
+    if c['seed'] % 7 == 2:
+        h.integer_tensors(psi)          # integer dtype: the algorithms have to promote the tensors themselves
     v = oracle.mps_dense(psi.A)
     n_in = float(np.linalg.norm(v))
     if n_in < 1e-10:
@@ -118,7 +120,11 @@ def run_case(c):
         D0 = h.bond_dims(psi)
         where = f'invocation {j} (numsweeps={ns}, numiter={numiter}, bonds {D0}, sector {qtot} of dimension {secdim})'
         try:
-            if alg == 'single':
+            if c['seed'] % 5 == 1:
+                # positional form of the documented signatures (H, psi, numsweeps, numiter_lanczos[, tol_split])
+                en = ptn.calculate_ground_state_local_singlesite(H, psi, ns, numiter) if alg == 'single' else \
+                    ptn.calculate_ground_state_local_twosite(H, psi, ns, numiter, tsplit)
+            elif alg == 'single':
                 en = ptn.calculate_ground_state_local_singlesite(H, psi, ns, numiter_lanczos=numiter)
             else:
                 en = ptn.calculate_ground_state_local_twosite(H, psi, ns, numiter_lanczos=numiter, tol_split=tsplit)
